@@ -58,4 +58,5 @@ props! {
     "C16" => c16,
     "C17" => c17,
     "C18" => c18,
+    "C19" => c19,
 }
